@@ -127,6 +127,11 @@ def task_history(args):
     import pyrefact
 
     for h in history:
+        if isinstance(h, list):  # cheap filler: parse many distinct sources (evicts every cache entry)
+            from pyrefact import core
+            for i in range(h[1]):
+                core.parse(f"filler_{h[0]}_{i} = {i}\n")
+            continue
         oracles._guarded(lambda: pyrefact.format_code(h, **opts), 60)
     a = oracles._guarded(lambda: pyrefact.format_code(src, **opts), 60)
     b = oracles._guarded(lambda: pyrefact.format_code(src, **opts), 60)
@@ -138,8 +143,8 @@ def history_suite(ctx):
     r = ctx.rng("history")
     gen = sweep.generated_corpus()
     ex = [(oracles.sha(x), x, "repo-example") for x in oracles.repo_examples() if oracles.runnable(x)]
-    pool = gen + ex
-    n = ctx.n(48, 400)
+    pool = gen + ex + sweep.generated_corpus2() * 3
+    n = ctx.n(64, 400)
     cases = []
     for _ in range(n):
         sha, src, fam = r.choice(pool)
@@ -147,6 +152,8 @@ def history_suite(ctx):
         hist = [r.choice(pool)[1] for _ in range(k)]
         if r.random() < 0.3:
             hist.append(src)  # the same input earlier in the history
+        if r.random() < 0.35:
+            hist = [src, ["fill", 130]] + hist[:1]  # x, then more than a cache-full of other sources, then x again
         opts = r.choice([{}, {"safe": True}])
         cases.append((sha, src, fam, hist, opts))
     base = sweep.baseline("C05")
